@@ -134,6 +134,61 @@ EpsCases == { [kind |-> "objective", class |-> "epsilon_unattainable", n |-> 1, 
               x \in { <<3, <<"newtonRoot", "newtonCrit">> >>, <<-100, <<"newtonMin">> >>,
                       <<2, <<"newtonRoot", "newtonCrit", "newtonMin">> >> } }
 
+(* ------------------------------------------ exact Newton cycles (history) *)
+(* Polynomials whose Newton iteration x -> x - p(x)/p'(x) runs through an  *)
+(* exact cycle of integer points (period 2, 3, 4) from the start point:    *)
+(* no iterate is ever repeated twice in a row, the residual never becomes  *)
+(* small, default MaxIterations is unbounded - the routine must still come *)
+(* back (value or error).  The cycle property is CERTIFIED here by integer *)
+(* arithmetic (IsNewtonCycle, an ASSUME checked by TLC):                   *)
+(*     p'(x_i) # 0   and   p(x_i) = (x_i - x_{i+1}) p'(x_i).               *)
+(* All evaluations involve small integers only, so they are exact in       *)
+(* float64 as well.  RunRoot gets p; RunCrit / RunMin get the scaled       *)
+(* antiderivative F with integer coefficients, F' = L p (scaling p does    *)
+(* not change the Newton map; for RunMin the line search alters the        *)
+(* iteration, it must merely return).                                      *)
+Polys == { [period |-> 2, cyc |-> <<0, 1>>,       p |-> <<2, -2, 0, 1>>,                   L |-> 12],
+           [period |-> 3, cyc |-> <<0, 1, 2>>,    p |-> <<-112, 112, 0, -43, 12>>,         L |-> 60],
+           [period |-> 4, cyc |-> <<0, 1, 2, 3>>, p |-> <<18, -18, 20, -39, 38, -15, 2>>,  L |-> 420] }
+RECURSIVE Pow(_, _)
+Pow(x, j) == IF j = 0 THEN 1 ELSE x * Pow(x, j - 1)
+RECURSIVE EvalFrom(_, _, _)
+EvalFrom(q, x, j) == IF j > Len(q) THEN 0 ELSE q[j] * Pow(x, j - 1) + EvalFrom(q, x, j + 1)
+Eval(q, x)  == EvalFrom(q, x, 1)                       \* q[1] + q[2] x + q[3] x^2 + ...
+Deriv(q)    == [j \in 1..(Len(q) - 1) |-> j * q[j + 1]]
+Anti(q, L)  == <<0>> \o [j \in 1..Len(q) |-> (L * q[j]) \div j]
+IsNewtonCycle(y) ==
+  \A i \in 1..y.period :
+     LET x  == y.cyc[i]
+         xn == y.cyc[(i % y.period) + 1]
+     IN  Eval(Deriv(y.p), x) # 0 /\ Eval(y.p, x) = (x - xn) * Eval(Deriv(y.p), x)
+ASSUME \A y \in Polys : /\ IsNewtonCycle(y)
+                         /\ \A j \in 1..Len(y.p) : (y.L * y.p[j]) % j = 0
+                         /\ Deriv(Anti(y.p, y.L)) = [i \in 1..Len(y.p) |-> y.L * y.p[i]]     \* F' = L p
+PolyCases ==
+     { [kind |-> "polynomial", class |-> "newton_cycle", n |-> 1, m |-> <<y.cyc[1]>> \o y.p, obj |-> "root",
+        k |-> y.period, calls |-> Calls(<<"newtonRoot">>, 1)] : y \in Polys }
+  \cup { [kind |-> "polynomial", class |-> "newton_cycle", n |-> 1, m |-> <<y.cyc[1]>> \o Anti(y.p, y.L), obj |-> "crit",
+        k |-> y.period, calls |-> Calls(<<"newtonCrit", "newtonMin">>, 1)] : y \in Polys }
+
+(* ------------------------------------------------- restricted domains *)
+(* The objective sum x_i^2 is only defined for x_i >= 1/2 (its minimiser   *)
+(* lies outside); outside the domain it returns an error (domain_error) or *)
+(* NaN (domain_nan).  Started inside (x0 = x0n/x0d in every coordinate),   *)
+(* so that several iterations succeed before the boundary is hit - the     *)
+(* routine must then come back, whatever happened before.  bfgs is also    *)
+(* started with the initial Hessians h I, h = hn/hd: a well scaled one     *)
+(* makes the first updates succeed before the line search fails for the    *)
+(* updated AND the reset matrix.  m = <<x0n, x0d, hn, hd>>.                *)
+DomainStarts   == { <<3, 1>>, <<1, 1>>, <<3, 4>>, <<10, 1>> }
+DomainHessians == { <<5, 2>>, <<4, 1>>, <<10, 1>>, <<1, 2>> }
+DomainRoutines == <<"lineSearch", "rprop", "gradientDescent", "newtonRoot", "newtonCrit", "newtonMin", "bfgs", "adam">>
+DomainCases ==
+     { [kind |-> "objective", class |-> cl, n |-> n, m |-> <<x[1], x[2], 1, 1>>, obj |-> cl, k |-> 0,
+        calls |-> Calls(DomainRoutines, n)] : cl \in {"domain_error", "domain_nan"}, n \in 1..2, x \in DomainStarts }
+  \cup { [kind |-> "objective", class |-> cl, n |-> n, m |-> <<x[1], x[2], h[1], h[2]>>, obj |-> cl, k |-> 0,
+        calls |-> Calls(<<"bfgs">>, n)] : cl \in {"domain_error", "domain_nan"}, n \in 1..2, x \in DomainStarts, h \in DomainHessians }
+
 (* ------------------------------------------------- line search options *)
 (* lineSearch.Run(phi, Parameters{Alpha1, MaxEval}, Constraints{c}): the   *)
 (* first trial step Alpha1 = a1n/a1d ranges over dyadic AND non-dyadic     *)
@@ -162,6 +217,7 @@ VARIABLE c
 Init == \/ \E x \in Int1 \cup Int2 \cup Int3 \cup Int4 \cup Structured : c = MatrixCase(x)
         \/ \E o \in ObjClasses, n \in 1..2 : c = ObjCase(o, n)
         \/ \E x \in EpsCases : c = x
+        \/ \E x \in PolyCases \cup DomainCases : c = x
         \/ \E a \in Alpha1s, g \in LsRegions, o \in LsObjectives, me \in {20, 1} : c = LsCase(a, g, o, me)
 Next == UNCHANGED c
 Spec == Init /\ [][Next]_c
